@@ -195,6 +195,8 @@ def run(ctx):
     ctx.exhaustive = True
     run_bkg(ctx)
     run_apertures(ctx)
+    from .profnorm import run_profnorm
+    run_profnorm(ctx)
     ctx.assumptions += ['bit-identity of repeated computations on this platform (measured: fresh vs fresh digests are equal)']
 
 
